@@ -401,6 +401,14 @@ def standard_check(prop, tier, custom=None):
                 run.trusted.append("library axioms reported by Print Assumptions: " + ", ".join(res["axioms"]))
             run.coverage["examples"] = res["examples"]
             model_ok = res["ok"]
+            if tier == "thorough" and model_ok and os.environ.get("VERIF_COQCHK", "1") == "1":
+                # independent re-check of the compiled theory and everything it depends on
+                rc, out = sh(["coqchk", "-silent", "-o", "-Q", "theories", "GoSecs", "GoSecs.Properties." + pid], cwd=COQ, timeout=2400)
+                m = re.search(r"\* Axioms:(.*?)\n\s*\n\* Constants/Inductives relying on type-in-type:(.*?)\n", out, re.S)
+                ax = " ".join(m.group(1).split()) if m else "?"
+                run.oblige("coqchk re-check of GoSecs.Properties.%s (axioms: %s)" % (pid, ax), rc == 0, out[-3000:])
+                if rc == 0 and ax not in ("<none>", "?"):
+                    run.trusted.append("coqchk axiom summary: " + ax)
         drv = prop.get("driver")
         drv_ok = False
         if drv and gen_ok:
